@@ -81,8 +81,9 @@ def write(prop, tier, seed, results, meta, wall, n_viol, known_hits, inconclusiv
         'wall_s': round(wall, 2),
         'violations': n_viol,
     }
-    os.makedirs(os.path.join(VERIF, 'evidence'), exist_ok=True)
-    path = os.path.join(VERIF, 'evidence', prop + '.json')
+    evdir = os.environ.get('JV_EVIDENCE_DIR') or os.path.join(VERIF, 'evidence')   # redirected by tools/seed_run.sh only
+    os.makedirs(evdir, exist_ok=True)
+    path = os.path.join(evdir, prop + '.json')
     try:
         import jsonschema
         with open(SCHEMA) as f:
